@@ -1,8 +1,11 @@
 #!/bin/bash
-# runs every quick check with the given seed(s) and prints one line per (seed, property)
+# runs every quick check with the given seed(s) and prints one line per (seed, property); rc = exit status of the check
 for seed in "$@"; do
 for p in C01 C02 C03 C04 C05 C06 C07 C08 C09 C10 C11 C12 C13 C14 C15 C16 C17 C18 C19 C20; do
   s=$(date +%s)
-  out=$(VERIF_SEED=$seed ./check $p --tier quick 2>&1 | grep -E "VIOLATION|MACHINERY|tier=quick" | tail -3 | cut -c1-300)
-  echo "seed=$seed $p $(( $(date +%s) - s ))s :: $out"
+  VERIF_SEED=$seed ./check $p --tier quick > /tmp/quick_$p.out 2>&1
+  rc=$?
+  out=$(grep -E "VIOLATION|MACHINERY|tier=quick" /tmp/quick_$p.out | tail -3 | cut -c1-300)
+  echo "seed=$seed $p rc=$rc $(( $(date +%s) - s ))s :: $out"
+  rm -f /tmp/quick_$p.out
 done; done
